@@ -4,7 +4,7 @@ from __future__ import annotations
 import ast
 
 from ..cfg import cfg_of
-from ..model import AnalysisError, dotted, norm, walk_stmt_exprs
+from ..model import AnalysisError, dotted, norm, walk_own, walk_stmt_exprs
 
 
 class Ctx:
@@ -230,3 +230,208 @@ def eval_compare_on(expr, left_pred, right_pred, a, b):
 
 def stmts_between_same_block(func, a_stmt, b_stmt):
     return None
+
+
+def local_derives_from_call(func, name, call_pred, _seen=None):
+    """Is local `name` falsy unless a value produced by a call satisfying
+    call_pred reached it?  Every binding of `name` must be a falsy constant,
+    the call itself, another such local, or an accumulation (`+=`, `a + b`,
+    `a or b`) of such values -- and at least one binding must involve the call.
+    Independent of how the local is spelled."""
+    _seen = _seen if _seen is not None else set()
+    if name in _seen:
+        return None
+    _seen.add(name)
+
+    def val(e):
+        # True: derives from the call; None: neutral (falsy const); False: foreign
+        if isinstance(e, ast.Constant):
+            return None if not e.value else False
+        if isinstance(e, ast.Call):
+            return True if call_pred(e) else False
+        if isinstance(e, ast.Name):
+            if e.id == name:
+                return None
+            return local_derives_from_call(func, e.id, call_pred, _seen)
+        if isinstance(e, ast.BinOp) and isinstance(e.op, ast.Add):
+            a, b = val(e.left), val(e.right)
+            if a is False or b is False:
+                return False
+            return True if (a or b) else None
+        if isinstance(e, ast.BoolOp):
+            vs = [val(v) for v in e.values]
+            if any(v is False for v in vs):
+                return False
+            return True if any(vs) else None
+        return False
+
+    got = False
+    nbind = 0
+    for n in walk_own(func.node):
+        v = None
+        if isinstance(n, ast.Assign) and any(name in assigned_names(t) for t in n.targets):
+            if not all(isinstance(t, ast.Name) for t in n.targets):
+                return False
+            v = val(n.value)
+        elif isinstance(n, ast.AugAssign) and isinstance(n.target, ast.Name) and n.target.id == name:
+            if not isinstance(n.op, ast.Add):
+                return False
+            v = val(n.value)
+        elif isinstance(n, (ast.For, ast.comprehension)) and name in assigned_names(n.target):
+            return False
+        elif isinstance(n, ast.NamedExpr) and n.target.id == name:
+            v = val(n.value)
+        else:
+            continue
+        nbind += 1
+        if v is False:
+            return False
+        if v:
+            got = True
+    if name in [a.arg for a in func.node.args.args]:
+        return False
+    return True if (got and nbind) else (None if nbind else False)
+
+
+def tail_is(expr, *names):
+    """expr is the attribute chain / name `name`, possibly reached through a
+    longer chain (`headers` ~ `self.headers`): rules are handed functions in
+    normal form, where stable aliases are replaced by the chain they stand for,
+    and must accept either spelling."""
+    d = dotted(expr) if not isinstance(expr, str) else expr
+    if d is None:
+        return False
+    return any(d == n or d.endswith("." + n) for n in names)
+
+
+def text_matches(actual, expected):
+    """Normalised expression text `actual` equals `expected` up to a longer
+    receiver chain in front of each name chain of `expected`
+    (`str(server.effective_port)` ~ `str(self.channel.server.effective_port)`)."""
+    import re
+    out = []
+    pos = 0
+    for m in re.finditer(r"(?<![\w.'\"])[A-Za-z_][\w]*(?:\.[A-Za-z_]\w*)*", expected):
+        out.append(re.escape(expected[pos:m.start()]))
+        pre = expected[:m.start()]
+        if pre.count("'") % 2 == 1 or pre.count('"') % 2 == 1:
+            out.append(re.escape(m.group(0)))  # inside a string literal
+        else:
+            out.append(r"(?:[A-Za-z_][\w.]*\.)?" + re.escape(m.group(0)))
+        pos = m.end()
+    out.append(re.escape(expected[pos:]))
+    return re.fullmatch("".join(out), actual) is not None
+
+
+_NEG = {ast.NotIn: "in", ast.NotEq: "==", ast.IsNot: "is"}
+_POS = {ast.In: "in", ast.Eq: "==", ast.Is: "is", ast.Lt: "<", ast.LtE: "<=", ast.Gt: ">", ast.GtE: ">="}
+
+
+def cmp_fact(t, pol=True):
+    """(op, left text, right text, truth) of a single comparison known to have
+    outcome `pol`, with `not in` / `!=` / `is not` folded into the truth value
+    (the CFG presents branches in this canonical polarity already; this also
+    canonicalises comparisons taken from the AST).  None if t is not a single
+    comparison."""
+    if not (isinstance(t, ast.Compare) and len(t.ops) == 1):
+        return None
+    o = type(t.ops[0])
+    if o in _NEG:
+        return (_NEG[o], norm(t.left), norm(t.comparators[0]), not pol)
+    if o in _POS:
+        return (_POS[o], norm(t.left), norm(t.comparators[0]), bool(pol))
+    return None
+
+
+def str_template(e):
+    """A string-building expression as a list of parts: literal text (str) and
+    holes ('hole', expr text, conversion).  `'%s: %s' % (a, b)`, `f'{a}: {b}'`,
+    `'{}: {}'.format(a, b)` and `a + ': ' + b` all give [hole a, ': ', hole b].
+    None if e is not recognised as such."""
+    import re
+    if isinstance(e, ast.Constant) and isinstance(e.value, str):
+        return [e.value] if e.value else []
+    if isinstance(e, ast.JoinedStr):
+        out = []
+        for v in e.values:
+            if isinstance(v, ast.Constant):
+                out.append(v.value)
+            elif isinstance(v, ast.FormattedValue):
+                if v.format_spec is not None:
+                    return None
+                out.append(("hole", norm(v.value), {-1: "s", 115: "s", 114: "r", 97: "a"}.get(v.conversion, "?")))
+        return _merge(out)
+    if isinstance(e, ast.BinOp) and isinstance(e.op, ast.Add):
+        a, b = str_template(e.left), str_template(e.right)
+        if a is None and b is None:
+            return None
+        a = a if a is not None else [("hole", norm(e.left), "s")]
+        b = b if b is not None else [("hole", norm(e.right), "s")]
+        return _merge(a + b)
+    if isinstance(e, ast.BinOp) and isinstance(e.op, ast.Mod) and isinstance(e.left, ast.Constant) and isinstance(e.left.value, str):
+        fmt = e.left.value
+        specs = list(re.finditer(r"%(?:(%)|([sdr]))", fmt))
+        if len(re.findall(r"%", fmt)) != sum(2 if m.group(1) else 1 for m in specs):
+            return None
+        holes = [m for m in specs if not m.group(1)]
+        if isinstance(e.right, ast.Tuple):
+            args = [norm(x) for x in e.right.elts]
+            if len(args) != len(holes):
+                return None
+        elif len(holes) == 1:
+            args = [norm(e.right)]
+        else:
+            args = ["%s[%d]" % (norm(e.right), i) for i in range(len(holes))]
+        out, pos, k = [], 0, 0
+        for m in specs:
+            out.append(fmt[pos:m.start()])
+            if m.group(1):
+                out.append("%")
+            else:
+                out.append(("hole", args[k], "r" if m.group(2) == "r" else "s"))
+                k += 1
+            pos = m.end()
+        out.append(fmt[pos:])
+        return _merge(out)
+    if isinstance(e, ast.Call) and isinstance(e.func, ast.Attribute) and e.func.attr == "format" and isinstance(e.func.value, ast.Constant) \
+            and isinstance(e.func.value.value, str) and not e.keywords:
+        fmt = e.func.value.value
+        out, pos, k = [], 0, 0
+        for m in re.finditer(r"\{\{|\}\}|\{(\d*)(![rsa])?\}", fmt):
+            out.append(fmt[pos:m.start()])
+            if m.group(0) in ("{{", "}}"):
+                out.append(m.group(0)[0])
+            else:
+                idx = int(m.group(1)) if m.group(1) else k
+                k += 1
+                if idx >= len(e.args):
+                    return None
+                out.append(("hole", norm(e.args[idx]), (m.group(2) or "!s")[1]))
+            pos = m.end()
+        out.append(fmt[pos:])
+        if "{" in "".join(x for x in out if isinstance(x, str) and x not in ("{", "}")) and False:
+            return None
+        return _merge(out)
+    return None
+
+
+def _merge(parts):
+    out = []
+    for p in parts:
+        if isinstance(p, str):
+            if not p:
+                continue
+            if out and isinstance(out[-1], str):
+                out[-1] += p
+            else:
+                out.append(p)
+        else:
+            out.append(p)
+    return out
+
+
+def template_text(parts, names=True):
+    """'HTTP/{self.version}' (names=True) or 'HTTP/{}' for a part list."""
+    if parts is None:
+        return None
+    return "".join(p if isinstance(p, str) else ("{%s%s}" % (p[1], "" if p[2] == "s" else "!" + p[2]) if names else "{}") for p in parts)
